@@ -4,6 +4,7 @@ Property theorems only; lemmas live in Neutrino/Lemmas/Store*.lean.
 -/
 import Neutrino.Lemmas.StoreFault
 import Neutrino.Lemmas.StoreStartup
+import Neutrino.Lemmas.StoreSplit
 namespace Neutrino.Store
 
 /-- **Every crash point of every store operation, after every history.**
@@ -29,6 +30,35 @@ theorem C08_recover (d : Durable) (l : Log) (op : Op) (k torn : Nat)
   intro r
   have h := exec_outcome d l op (.crash k torn) hrep hc trivial hro
   exact ⟨fun hcr => (h.1 hcr).2, h.2⟩
+
+/-- **Bulk appends: every crash point of the code's arrangement** (the index
+write of a batch of any size is ONE transaction, `writeBlocksSplit` over the
+single chunk, fact `Gen.Store.indexAddOneTransaction`): `C08_recover` read for
+that arrangement. -/
+theorem C08_single_tx_append_recover (d : Durable) (l : Log) (ids : List Nat) (k torn : Nat)
+    (hrep : Rep d l) (hc : Contract l (.wb ids)) :
+    let r := R.fin (writeBlocksSplit ids [stamped ids l.blocks.length] { d := d, inj := .crash k torn })
+    (r.2 = .crashed → ∃ d' lx, reopen r.1 = some d' ∧ Rep d' lx ∧ (lx = l ∨ lx = l.apply (.wb ids))) ∧
+    (r.2 ≠ .crashed → r.2 = expectOut l (.wb ids) ∧ Rep r.1 (l.apply (.wb ids))) := by
+  obtain ⟨tip, htip, hbt⟩ := rep_btipHeight hrep
+  have hlenB := len_pred_succ hrep.neB
+  have := C08_recover d l (.wb ids) k torn hrep hc (by simp)
+  rw [writeBlocksSplit_single]
+  simpa [exec, hbt, hlenB] using this
+
+/-- what `C08_single_tx_append_recover` relies on in headerfs/index.go (regenerated on every run) -/
+theorem C08_bulk_source_shape : Gen.Store.indexAddOneTransaction = true := by decide
+
+/-- **A split index write does not survive a crash between its transactions**,
+even with the tip moved last: killed before the second of two transactions, the
+restart succeeds and cuts the file back to the recorded tip — the interrupted
+batch is gone by height — but the hash of its first header still resolves, to a
+height beyond the tip: the reopened stores represent no list at all. -/
+theorem C08_split_append_crash_counterexample :
+    let r := R.fin (writeBlocksSplit [1, 2] [[(1, 1)], [(2, 2)]] { d := init, inj := .crash 2 0 })
+    r.2 = .crashed ∧
+    (reopen r.1).map (fun d' => (d'.bf.ents, d'.db.btip, d'.db.height? 1, (abs d').isSome)) =
+      some ([0], some 0, some 1, false) := by decide
 
 /-- After recovery the filter-header chain is not ahead of the block-header
 chain, neither store is empty, and every index entry points at its header. -/
